@@ -42,12 +42,21 @@ func expectedMaxRelays(stake *big.Int, p appsTypes.Params, post appView) *big.In
 	return res
 }
 
-func relaysMatch(got, want *big.Int, p appsTypes.Params) bool {
+// relaysMatch: exact without participation rate (every intermediate value has at most 8 decimals). With the
+// participation rate the implementation rounds the rate and the product to 18 decimals, so the exact-rational result
+// may differ by the baseline × 1e-18 (relative rounding error of the rate) plus one unit at a truncation boundary.
+func relaysMatch(got, want, stake *big.Int, p appsTypes.Params) bool {
 	if !p.ParticipationRateOn {
 		return got.Cmp(want) == 0
 	}
+	if got.Cmp(maxUint64) == 0 && want.Cmp(maxUint64) == 0 {
+		return true
+	}
+	tol := new(big.Int).Mul(b64(p.BaseRelaysPerPOKT), stake)
+	tol.Quo(tol, new(big.Int).Exp(big.NewInt(10), big.NewInt(26), nil)) // baseline (= base*stake/1e8) * 1e-18
+	tol.Add(tol, big.NewInt(2))
 	d := new(big.Int).Sub(got, want)
-	return d.CmpAbs(big.NewInt(1)) <= 0 // 18-digit decimal rounding of the participation rate vs exact rationals
+	return d.CmpAbs(tol) <= 0
 }
 
 type c28 struct {
@@ -80,10 +89,8 @@ func (m *c28) judge(tx appTx, pre, post appView, code uint32, codespace string, 
 		r0, ok0 := pre.recs[a]
 		r1, ok1 := post.recs[a]
 		if ok0 != ok1 || !bytes.Equal(r0.raw, r1.raw) {
-			if !c.Violation("C28/app-stake/unrelated-record-changed", "%s: record of %s changed from %s to %s although it is neither the message key nor the signer",
-				ctx, m.w.dir.names[a], m.recStr(pre, a), m.recStr(post, a)) {
-				return
-			}
+			c.Violation("C28/app-stake/unrelated-record-changed", "%s: record of %s changed from %s to %s although it is neither the message key nor the signer",
+				ctx, m.w.dir.names[a], m.recStr(pre, a), m.recStr(post, a))
 		}
 	}
 	same := func(a string) bool {
@@ -191,7 +198,7 @@ func (m *c28) judge(tx appTx, pre, post appView, code uint32, codespace string, 
 		if hx(a.Address) != P || !pubEq(a.PublicKey, tx.msg.PubKey) || a.Jailed || bi(a.StakedTokens).Cmp(value) != 0 || !sameStrings(a.Chains, tx.msg.Chains) {
 			c.Violation("C28/app-stake/record-differs-from-request", "%s: stored record %s", ctx, renderApp(a))
 		}
-		if want := expectedMaxRelays(value, pre.params, post); !relaysMatch(bi(a.MaxRelays), want, pre.params) {
+		if want := expectedMaxRelays(value, pre.params, post); !relaysMatch(bi(a.MaxRelays), want, value, pre.params) {
 			c.Violation("C28/app-stake/max-relays-not-from-formula", "%s: MaxRelays %s, formula gives %s (base=%d adj=%d participation=%v pools %s+%s supply %s)", ctx, a.MaxRelays, want,
 				pre.params.BaseRelaysPerPOKT, pre.params.StabilityAdjustment, pre.params.ParticipationRateOn, post.pool, post.nodePool, post.supply)
 		}
@@ -232,7 +239,7 @@ func (m *c28) judge(tx appTx, pre, post appView, code uint32, codespace string, 
 			if need := new(big.Int).Add(diff, b64(fee)); balPre[P].Cmp(need) < 0 {
 				c.Violation("C28/app-edit/bump-without-funds", "%s: balance %s cannot cover bump+fee %s", ctx, balPre[P], need)
 			}
-			if want := expectedMaxRelays(value, pre.params, post); !relaysMatch(bi(a.MaxRelays), want, pre.params) {
+			if want := expectedMaxRelays(value, pre.params, post); !relaysMatch(bi(a.MaxRelays), want, value, pre.params) {
 				c.Violation("C28/app-edit/max-relays-not-from-formula", "%s: MaxRelays %s, formula gives %s (base=%d adj=%d participation=%v)", ctx, a.MaxRelays, want,
 					pre.params.BaseRelaysPerPOKT, pre.params.StabilityAdjustment, pre.params.ParticipationRateOn)
 			}
